@@ -53,12 +53,16 @@ type optSpecC struct {
 	Vid  int
 	Sub  string
 	Fids []int
+	// Multi (Kind "typed" only): the further entries of a multi-value Typed(...) call, before (Ty < 0:
+	// nil entries) and after this option's own value; each is {type, value id}, type -1 = a nil entry
+	Pre, Post [][2]int
 }
 
 type scenario struct {
 	Funcs    []*fnSpec // Funcs[0] is the target
 	Opts     []optSpecC
-	Defaults int // the first Defaults options are given to NewFunc
+	Defaults int  // the first Defaults options are given to NewFunc
+	Subs     bool // redef family: labels carry subtypes
 	events   []string
 	pops     []string
 	nextEid  int
@@ -355,7 +359,15 @@ func (sc *scenario) mkArg(o optSpecC) am.Arg {
 	case "namedsub":
 		return am.NamedSubtype(o.Name, mkValue(o.Ty, o.Vid, -1).Interface(), o.Sub)
 	case "typed":
-		return am.Typed(mkValue(o.Ty, o.Vid, -1).Interface())
+		var vs []interface{}
+		for _, e := range o.Pre {
+			vs = append(vs, typedEntry(e))
+		}
+		vs = append(vs, mkValue(o.Ty, o.Vid, -1).Interface())
+		for _, e := range o.Post {
+			vs = append(vs, typedEntry(e))
+		}
+		return am.Typed(vs...)
 	case "typedsub":
 		return am.TypedSubtype(mkValue(o.Ty, o.Vid, -1).Interface(), o.Sub)
 	case "conv":
@@ -410,6 +422,47 @@ func (sc *scenario) mkArg(o optSpecC) am.Arg {
 	return nil
 }
 
+// typedEntry: one entry of a multi-value Typed(...): a value, or (type -1) a nil interface / nil error
+func typedEntry(e [2]int) interface{} {
+	if e[0] < 0 {
+		if e[1]%2 == 0 {
+			return nil
+		}
+		var err error
+		return err
+	}
+	return mkValue(e[0], e[1], -1).Interface()
+}
+
+// multiTyped turns some Typed options into multi-value calls: nil entries before / after the value, and
+// now and then a later Typed option folded into an earlier one.
+func (sc *scenario) multiTyped(r *rng) {
+	for i := 0; i < len(sc.Opts); i++ {
+		if sc.Opts[i].Kind != "typed" || !r.chance(1, 3) {
+			continue
+		}
+		o := sc.Opts[i]
+		for k := r.intn(3); k > 0; k-- {
+			o.Pre = append(o.Pre, [2]int{-1, r.intn(2)})
+		}
+		if r.chance(1, 2) {
+			o.Post = append(o.Post, [2]int{-1, r.intn(2)})
+		}
+		// fold a later Typed option of the same section (defaults / call options) into this one
+		for j := i + 1; j < len(sc.Opts); j++ {
+			if sc.Opts[j].Kind == "typed" && len(sc.Opts[j].Pre)+len(sc.Opts[j].Post) == 0 && (i < sc.Defaults) == (j < sc.Defaults) && r.chance(1, 2) {
+				o.Post = append(o.Post, [2]int{sc.Opts[j].Ty, sc.Opts[j].Vid})
+				sc.Opts = append(sc.Opts[:j], sc.Opts[j+1:]...)
+				if j < sc.Defaults {
+					sc.Defaults--
+				}
+				break
+			}
+		}
+		sc.Opts[i] = o
+	}
+}
+
 func (o optSpecC) line() string {
 	switch o.Kind {
 	case "named":
@@ -417,7 +470,21 @@ func (o optSpecC) line() string {
 	case "namedsub":
 		return fmt.Sprintf("opt namedsub %s %d %d %s", e2s(o.Name), o.Ty, o.Vid, e2s(o.Sub))
 	case "typed":
-		return fmt.Sprintf("opt typed %d:%d", o.Ty, o.Vid)
+		str := "opt typed"
+		ent := func(e [2]int) string {
+			if e[0] < 0 {
+				return " nil"
+			}
+			return fmt.Sprintf(" %d:%d", e[0], e[1])
+		}
+		for _, e := range o.Pre {
+			str += ent(e)
+		}
+		str += fmt.Sprintf(" %d:%d", o.Ty, o.Vid)
+		for _, e := range o.Post {
+			str += ent(e)
+		}
+		return str
 	case "typedsub":
 		return fmt.Sprintf("opt typedsub %d %d %s", o.Ty, o.Vid, e2s(o.Sub))
 	case "namednil":
